@@ -613,16 +613,46 @@ pub fn run(rep: &Arc<Report>) {
     tuple_cases += tuple_check!(&cx, 11, 0, 1, 2, 3, 4, 5, 6, 7, 8, 9, 10);
     tuple_cases += tuple_check!(&cx, 12, 0, 1, 2, 3, 4, 5, 6, 7, 8, 9, 10, 11);
     domains.insert("tuples of arity 1..12 over a 3-value pool (all 3^n assignments)".into(), json!(tuple_cases));
-    // arity mismatch must not silently succeed
+    // arity mismatch must never silently succeed: every (source shape, target arity) pair
     {
-        evals.inc();
-        let r = catch(|| {
-            let x: (i32, i32) = FromValueTuple::from_value_tuple((1i32, 2i32, 3i32));
-            x
-        });
-        if r.is_ok() {
-            cx.fail("tuple", "arity-mismatch-accepted", "", "from_value_tuple::<(i32,i32)>((1,2,3)) succeeded".into());
+        let mut sources: Vec<(usize, ValueTuple)> = vec![];
+        let vals = |n: usize| -> Vec<Value> { (0..n).map(|i| Value::Int(Some(100 + i as i32))).collect() };
+        sources.push((1, ValueTuple::One(vals(1)[0].clone())));
+        sources.push((2, ValueTuple::Two(vals(2)[0].clone(), vals(2)[1].clone())));
+        sources.push((3, ValueTuple::Three(vals(3)[0].clone(), vals(3)[1].clone(), vals(3)[2].clone())));
+        for n in 0..=13 {
+            sources.push((n, ValueTuple::Many(vals(n))));
         }
+        macro_rules! target {
+            ($m:tt, $($i:tt),+) => {{
+                for (n, src) in &sources {
+                    evals.inc();
+                    let canonical = matches!((src, *n), (ValueTuple::One(_), 1) | (ValueTuple::Two(..), 2) | (ValueTuple::Three(..), 3)) || (matches!(src, ValueTuple::Many(_)) && *n >= 4);
+                    let r = catch(|| tuple_from!(src.clone(), $m, $($i),+));
+                    let want: Vec<i32> = (0..$m).map(|i| 100 + i as i32).collect();
+                    match r {
+                        Ok(got) if *n == $m && canonical && got == want => {}
+                        Ok(got) if *n == $m && got == want => {} // a non-canonical shape of the right arity may be accepted
+                        Ok(got) => cx.fail(&format!("tuple-arity<{}>", $m), "arity-mismatch-accepted", &format!("from{}", n), format!("from_value_tuple::<{}-tuple>({:?}) silently returned {:?}", $m, src, got)),
+                        Err(_) if *n == $m && canonical => cx.fail(&format!("tuple-arity<{}>", $m), "matching-arity-rejected", &format!("from{}", n), format!("from_value_tuple::<{}-tuple>({:?}) panicked", $m, src)),
+                        Err(_) => {}
+                    }
+                }
+            }};
+        }
+        target!(1, 0);
+        target!(2, 0, 1);
+        target!(3, 0, 1, 2);
+        target!(4, 0, 1, 2, 3);
+        target!(5, 0, 1, 2, 3, 4);
+        target!(6, 0, 1, 2, 3, 4, 5);
+        target!(7, 0, 1, 2, 3, 4, 5, 6);
+        target!(8, 0, 1, 2, 3, 4, 5, 6, 7);
+        target!(9, 0, 1, 2, 3, 4, 5, 6, 7, 8);
+        target!(10, 0, 1, 2, 3, 4, 5, 6, 7, 8, 9);
+        target!(11, 0, 1, 2, 3, 4, 5, 6, 7, 8, 9, 10);
+        target!(12, 0, 1, 2, 3, 4, 5, 6, 7, 8, 9, 10, 11);
+        domains.insert("(source tuple shape, target arity) pairs: 17 shapes x 12 arities".into(), json!(17 * 12));
     }
 
     let n = evals.get();
